@@ -138,6 +138,36 @@ CLAIMED = {
             "reference verdict.",
             "trusted: TLC, abstraction.py, TM.tla",
             "TLA+ model (TLC exhaustive) + TLC validation of the implementation's own traces"),
+    "C15": ("5/C15",
+            "TLC checks EpsPath.tla (forward search with back-pointers, backward walk; every pop and edge order) over "
+            "all epsilon graphs on 3 (4) states: the walk is bounded, a returned path is genuine, None iff unreachable; "
+            "with Mode = pinned the same model reproduces the hang that was fixed.  Every returned run of "
+            "dfa/nfa/pda_simulate_word and every derivation of cfg_derive_word IS a trace and is validated step by "
+            "step by TLC against the automaton's / grammar's own step relation (JWIT.tla, CFG.tla), None iff rejected; "
+            "8 (32) hash seeds; calls not returning within 4 s count as non-termination.",
+            "trusted: TLC, abstraction.py, FA/PDA/CFG.tla; wall-clock limit for termination",
+            "TLA+ model with nondeterministic orders (TLC exhaustive) + TLC validation of the implementation's own traces"),
+    "C16": ("5/C16",
+            "Each object is printed by the library, parsed back by the library and both projections are handed to TLC: "
+            "automata and grammars must be identical field by field; regular expressions (three syntaxes) must denote "
+            "the same language (exact, Glushkov + subset product) and re-print identically.  Universes: DFA(3,{a,b}) "
+            "under five naming schemes, NFA(2,{a,b}), the PDA/TM universes of C09/C11, empty alphabets, states named "
+            "like other formats' keywords, all trees <= 2 (3) operators, simple-format grammars.  Trace validation "
+            "only: the printers are pure functions; the line parser they are composed with is modelled under C17.",
+            "trusted: TLC, abstraction.py, Regex.tla; character-level lexing is exercised, not modelled",
+            "TLC trace validation of recorded print/parse round trips"),
+    "C17": ("5/C17, Appendix C",
+            "Text.tla states declaratively which descriptions are well formed and which automaton one denotes "
+            "(order-free, with the documented defaults).  LineParser.tla models parse_line + the DFA/NFA builders "
+            "operationally; TLC checks over every permutation (<= 6 lines), every subset of optional declarations and "
+            "every single fault that the operational outcome equals the declarative one (refinement).  (G) every "
+            "layout TLC enumerates (99k DFA, 260k NFA; every 6th in quick) is rendered and parsed by the real parser; "
+            "(J) random automata of all four kinds in random layouts with 18 kinds of corruption; each outcome is "
+            "judged by TLC against Text.tla: well-formed => exactly the described automaton, malformed => rejected, "
+            "class invariants hold.",
+            "trusted: TLC, abstraction.py, Text.tla; tokens are classified legal/illegal by the harness with the "
+            "documented label expressions; TM descriptions never repeat a (state, symbol)",
+            "TLA+ declarative + operational models (TLC refinement check) + spec behaviours replayed + TLC trace validation"),
 }
 
 REASON_TODO = "check not built yet (work in progress; see DESIGN.md section 5)"
